@@ -425,3 +425,26 @@ def rule_T_DISJOINT(ctx, T):
             ctx.ob("T-DISJOINT", "%s budget-close %r vs stamp content" % (name, c), pred_accepts(ps, c) is False, "accepted as stamp content")
         except Unrecognised as u:
             ctx.unrecognised("T-DISJOINT", name, u.what)
+
+
+def rule_T_IDENT(ctx, T):
+    """the identifier predicate cannot swallow the delimiter that follows an atom"""
+    ctx.rule("T-IDENT", "per enum table: is_valid_atom_name rejects the space and the first char of every keyword that may directly follow an "
+             "atom name without belonging to the copula look-ahead: compound separator, closing brackets of compounds, statements and sets, "
+             "punctuations")
+    for name in T.names:
+        e = T.e_roles(name)
+        try:
+            p = char_pred(ctx.facts, e["fn"]["is_valid_atom_name"])
+        except Unrecognised as u:
+            ctx.unrecognised("T-IDENT", name, u.what)
+            continue
+        follow = {"space.parse": e["space"]["parse"], "compound.separator": e["single"]["compound.separator"],
+                  "compound.brackets.1": e["single"]["compound.brackets"][1], "statement.brackets.1": e["single"]["statement.brackets"][1]}
+        for fld, kw in e["set_brackets"].items():
+            follow[fld + ".1"] = kw[1]
+        for fld, kw in e["punctuation"].items():
+            follow[fld] = kw
+        for fld, kw in sorted(follow.items()):
+            ctx.ob("T-IDENT", "%s %s %r" % (name, fld, kw[:1]), len(kw) > 0 and pred_accepts(p, kw[0]) is False,
+                   "the identifier predicate accepts %r, so an atom name would run into the following %s" % (kw[:1], fld))
